@@ -940,3 +940,20 @@ Proof.
   - destruct flag; simpl; [reflexivity|]. rewrite pure_run_bind. simpl. rewrite (IH H). reflexivity.
   - destruct flag; simpl; [reflexivity|]. apply IH. exact H.
 Qed.
+
+(* inventory addition is commutative and associative on well-formed inventories (as maps) *)
+Lemma add_inventory_comm a b : wf a -> wf b -> inv_eqv (add_inventory a b) (add_inventory b a).
+Proof.
+  intros Ha Hb k. rewrite !lookup_add_inventory by (apply Ha || apply Hb). lia.
+Qed.
+
+Lemma add_inventory_assoc a b c : wf a -> wf b -> wf c ->
+  inv_eqv (add_inventory (add_inventory a b) c) (add_inventory a (add_inventory b c)).
+Proof.
+  intros Ha Hb Hc k.
+  pose proof (wf_add_inventory b c Hb Hc) as Hbc.
+  rewrite !lookup_add_inventory by (apply Hb || apply Hc || apply Hbc). lia.
+Qed.
+
+Lemma add_inventory_nil_r a : add_inventory a [] = a.
+Proof. destruct a; reflexivity. Qed.
